@@ -78,7 +78,18 @@ def observe_area(cat, o, inlets, nval):
             else:
                 cat.delineate_area(o, inlets if inlets else None, nval=nval)
     except ValueError:
-        return {"err": True, "cells": [], "filled": [], "paths": []}
+        # a failed delineation must not leave the area of an earlier outlet paired with the new outlet
+        stale = None
+        try:
+            stale = [int(c) for c in cat.idxcells_area]
+            if int(cat.idxcell_outlet) != int(o):
+                stale = None          # the object still describes the earlier outlet consistently
+        except ValueError:
+            pass
+        out = {"err": True, "cells": [], "filled": [], "paths": []}
+        if stale is not None:
+            out["stale"] = stale
+        return out
     cells = [int(c) for c in cat.idxcells_area]
     filled = [int(c) for c in cat.idxcells_area_filled]
     paths = []
@@ -157,6 +168,10 @@ def replay_grid_c06(ctx, gridmod, c, stats):
             obs = observe_area(cat, o, a["inlets"], None if use_default else n + 2)
             stats["areas"] += 1
             acase = dict(case, outlet=o, inlets=a["inlets"])
+            if obs.get("stale") is not None:
+                ctx.violation("delineate_area:stale-area-after-error", "after a failed delineation for outlet %d the catchment still exposes the area %s of an earlier outlet" %
+                              (o, obs["stale"][:12]), acase)
+                return
             if a["cyclic"]:
                 stats["cyclic"] += 1
                 continue
